@@ -1,6 +1,7 @@
 (* C08 - clipping keeps every selected value and blanks everything else. *)
 From Coq Require Import ZArith List Bool Sorted.
 From EV Require Import Base.Index Base.ListX Model.Mask Model.UMask Model.Export Model.Clip Proofs.ClipP.
+From EV Require Import Model.AttrMerge Proofs.AttrMergeP.
 Import ListNotations.
 Open Scope Z_scope.
 
@@ -48,3 +49,23 @@ Print Assumptions C08_kept_order.
 Theorem C08_kept_exactly : forall tab n, In n (kept_of tab) <-> 0 <= n /\ exists x, nth_error tab (Z.to_nat n) = Some (Some x).
 Proof. exact kept_spec. Qed.
 Print Assumptions C08_kept_exactly.
+
+(* ---- attributes pass through the reassembly of the clipped dataset (utils.dataset_like) ---- *)
+
+(* an attribute of the source variable is on the clipped variable with the same value, unless the reassembled variable brought
+   its own value for it or holds that name in its encoding; what the reassembled variable has is never overwritten *)
+Theorem C08_attributes_pass_through : forall s_attrs s_enc n_attrs n_enc k v,
+  (get k s_attrs = Some v -> has k n_enc = false -> get k n_attrs = None ->
+   get k (fst (like_var s_attrs s_enc n_attrs n_enc)) = Some v) /\
+  (get k n_attrs = Some v -> get k (fst (like_var s_attrs s_enc n_attrs n_enc)) = Some v) /\
+  (get k n_enc = Some v -> get k (snd (like_var s_attrs s_enc n_attrs n_enc)) = Some v).
+Proof.
+  intros. split; [now apply attributes_pass|]. apply new_values_win.
+Qed.
+Print Assumptions C08_attributes_pass_through.
+
+(* a lookup in a dict merged without clobbering: the destination's entry if it has one, else the source's *)
+Theorem C08_update_no_clobber : forall k s d,
+  get k (update_no_clobber s d) = match get k d with Some v => Some v | None => get k s end.
+Proof. exact get_update. Qed.
+Print Assumptions C08_update_no_clobber.
